@@ -55,6 +55,8 @@ def predBattery (s : Sys) : String :=
         | .tfired p _ => if acc.contains p then acc else acc ++ [p]
         | _ => acc) []).map fun q => s!"p{q}"),
     "csd=" ++ tri (fun d => b2c (Pred.pruneStateDepth d sT)) D,
+    -- combinators over an empty list: "all" is vacuously satisfied, "any" is not
+    "emp=101001",
     -- built-in predicates are functions of the state they are given: kept across a run or built afresh, same verdict
     "pst=1",
     -- short-circuit: the counting second rule of all_invariants is invoked only if the first one holds
